@@ -886,6 +886,8 @@ func Gen16(t *rapid.T) Case16 {
 			c.Input = B(gen.Pick(t, "rich", []string{"http://u:p@h:81/p?b=2&a=1#f", "foo://u@h:1/p?z&y#f", "a:b  ?b&a#f", "ws://:p@h:80/?c=3&a=1&b=2#", "www.example.com:81/p?b&a#f", "u:p@h/p?q#f", "h:80/x?b=1&a=2", "example.com", "//h/p", "http://h/?a=1&A=2&a=0#"}))
 		case 1:
 			c.Input = B("http://u:p@h:81/p?" + genQuery(t) + "#f")
+		case 2:
+			c.Input = B("http://u:p@h:81/p?" + genLongQuery(t) + "#f")
 		default:
 			genInput16(t, &c)
 		}
@@ -904,8 +906,11 @@ func Gen16(t *rapid.T) Case16 {
 		genInput16(t, &c)
 		if rapid.IntRange(0, 1).Draw(t, "withquery") == 0 {
 			q := gen.Pick(t, "sortquery", c16SortQueries)
-			if rapid.IntRange(0, 1).Draw(t, "genquery") == 0 {
+			switch rapid.IntRange(0, 2).Draw(t, "genquery") {
+			case 0:
 				q = "?" + genQuery(t)
+			case 1:
+				q = "?" + genLongQuery(t)
 			}
 			c.Input, c.HasBase = B("http://h/p"+q), false
 		}
@@ -978,6 +983,18 @@ func Gen16(t *rapid.T) Case16 {
 		c.Input = B(sep + host + port + path)
 	}
 	return c
+}
+
+// genLongQuery: 8..40 parameters over a few repeated names with distinct values, so that stability
+// of the sort is observable (sort implementations switch algorithm above a dozen elements).
+func genLongQuery(t *rapid.T) string {
+	n := rapid.IntRange(8, 40).Draw(t, "nparams")
+	names := []string{"b", "a", "c", "b", "a", "d", "B", "aa"}
+	var parts []string
+	for i := 0; i < n; i++ {
+		parts = append(parts, fmt.Sprintf("%s=%d", names[rapid.IntRange(0, len(names)-1).Draw(t, "pname")], i))
+	}
+	return strings.Join(parts, "&")
 }
 
 func sortedOptNames(opts []Opt16) []string {
